@@ -316,7 +316,7 @@ macro_rules! gen_sweep {
                             }
                             cur = g.next_edge(e, dir);
                         }
-                        cx.ensure(&got == lst, &format!("{}:first_edge/next_edge", t), || format!("list of node {} dir {:?}: {:?}, model {:?}", a, dir, got, lst))?;
+                        cmp_list(cx, got, lst.clone(), ordered, &format!("{}:first_edge/next_edge", t), || format!("list of node {} dir {:?}", a, dir))?;
                     }
                 });
                 // ---- pairs
